@@ -25,6 +25,7 @@ type inv struct {
 	Set     string `json:"set"`
 	H       int    `json:"h"`
 	ArgsID  uint64 `json:"argsId"`
+	Time    string `json:"time"`  // Line.Time (when the line was received), the same for every copy
 	Slots   []int  `json:"slots"` // the argument array's whole capacity as ranks of slot addresses (per line)
 	slotAd  []uint64
 	TagsID  uint64      `json:"tagsId"`
@@ -93,7 +94,7 @@ func RunCopies(args []string) int {
 	}
 	mk := func(set string, h int) client.HandlerFunc {
 		return func(c *client.Conn, l *client.Line) {
-			v := inv{Set: set, H: h, Args: latin(l.Args), HasTags: l.Tags != nil, Tags: tagList(l.Tags)}
+			v := inv{Set: set, H: h, Args: latin(l.Args), HasTags: l.Tags != nil, Tags: tagList(l.Tags), Time: l.Time.Format(time.RFC3339Nano)}
 			if v.Args == nil {
 				v.Args = []string{}
 			}
@@ -125,6 +126,7 @@ func RunCopies(args []string) int {
 				l.Tags[fmt.Sprintf("added-by-%s%d", set, h)] = "x"
 			}
 			l.Cmd, l.Nick = "SCRIBBLED", "scribbled"
+			l.Time = l.Time.Add(time.Hour)
 		}
 	}
 	if err := s.Connect(); err != nil {
